@@ -5,6 +5,7 @@ import (
 	"encoding/json"
 	"fmt"
 	"sort"
+	"strings"
 	"testing"
 
 	pubast "github.com/cedar-policy/cedar-go/ast"
@@ -221,6 +222,55 @@ func check(c *Case) (res result) {
 		}
 	}
 	_ = anySat
+	// Ignored parts: the residual of a permit has to be satisfied whenever SOME value of the ignored part satisfies the
+	// original - so, for one assignment of the variables, it must be satisfied whatever stands in the ignored position:
+	// each of the candidate values and the ignore marker itself.
+	if ignoreMode && keep && c.Policy.Permit {
+		groups := map[string][]int{}
+		var order []string
+		satisfiable := map[string]bool{}
+		for ci, comp := range c.Completions {
+			vars := map[string]ir.Value{}
+			for k, v := range comp {
+				if !strings.HasPrefix(k, "ignore:") {
+					vars[k] = v
+				}
+			}
+			key := ir.JSON(vars)
+			if _, ok := groups[key]; !ok {
+				order = append(order, key)
+			}
+			groups[key] = append(groups[key], ci)
+			if o, _ := ref.PolicyOutcome(c.Policy, ref.NewEnv(c.Store, complete(c.Part, comp))); o == ref.Satisfied {
+				satisfiable[key] = true
+			}
+		}
+		for _, key := range order {
+			if !satisfiable[key] {
+				continue
+			}
+			for _, ci := range append([]int{-1}, groups[key]...) {
+				comp := map[string]ir.Value{}
+				for k, v := range c.Completions[groups[key][0]] {
+					if !strings.HasPrefix(k, "ignore:") {
+						comp[k] = v
+					}
+				}
+				standing := "the ignore marker"
+				if ci >= 0 {
+					comp = c.Completions[ci]
+					standing = "completion " + ir.JSON(comp)
+				}
+				rv, rerr := xeval.Eval(xeval.PolicyToNode(residual).AsIsNode(), toEnv(store, complete(c.Part, comp)))
+				if rc := classOf(rv, rerr); rc != ref.Satisfied {
+					res.sub = "ignore/residual-depends-on-ignored-part"
+					res.msg = fmt.Sprintf("variables %s: some value of the ignored part satisfies the original, but the residual is %v (%v) with %s in the ignored position; residual: %s",
+						key, rc, rerr, standing, (*pubast.Policy)(residual).MarshalCedar())
+					return
+				}
+			}
+		}
+	}
 	return
 }
 
@@ -582,7 +632,10 @@ func TestTable(t *testing.T) {
 			ir.Bin(ir.OpAnd, ir.Bin(op, ir.Lit(ir.Duration(7)), ir.Ext("duration", ir.Lit(ir.Str("7ms")))), ir.Is(P, "T0")),
 			ir.Bin(ir.OpAnd, ir.Bin(op, ir.Bin(ir.OpAdd, ir.Access(C, "a"), ir.Lit(ir.Long(1))), ir.Lit(ir.Long(2))), ir.Is(P, "T0")))
 	}
-	scopes := []func(p *ir.Policy){func(p *ir.Policy) {}, func(p *ir.Policy) { p.Principal = ir.ScopeIn(ir.Ent("T1", "g")) }, func(p *ir.Policy) { p.Principal = ir.ScopeIsIn("T0", ir.Ent("T1", "g")); p.Resource = ir.ScopeEq(ir.Ent("T1", "r")) }, func(p *ir.Policy) { p.Resource = ir.ScopeIs("T0") }}
+	scopes := []func(p *ir.Policy){func(p *ir.Policy) {}, func(p *ir.Policy) { p.Principal = ir.ScopeIn(ir.Ent("T1", "g")) }, func(p *ir.Policy) {
+		p.Principal = ir.ScopeIsIn("T0", ir.Ent("T1", "g"))
+		p.Resource = ir.ScopeEq(ir.Ent("T1", "r"))
+	}, func(p *ir.Policy) { p.Resource = ir.ScopeIs("T0") }}
 	pc := []ir.Value{ir.Ent("T0", "a"), ir.Ent("T1", "g"), ir.Ent("T0", "zz")}
 	rc := []ir.Value{ir.Ent("T1", "r"), ir.Ent("T0", "a")}
 	ac := []ir.Value{ir.Long(1), ir.Long(2), ir.Str("s")}
@@ -692,10 +745,10 @@ func TestTableNested(t *testing.T) {
 			for _, when := range []bool{true, false} {
 				for mp := 0; mp < 2; mp++ {
 					for me := 0; me < 3; me++ {
-						for mx := 0; mx < 2; mx++ {
+						for mx := 0; mx < 3; mx++ { // 2: context.x.a is ignored
 							for md := 0; md < 2; md++ {
 								for wholeIgnore := 0; wholeIgnore < 2; wholeIgnore++ {
-									if (me == 2 || wholeIgnore == 1) && !permit {
+									if (me == 2 || mx == 2 || wholeIgnore == 1) && !permit {
 										continue
 									}
 									if wholeIgnore == 1 && (me+mx+md) > 0 {
@@ -728,6 +781,9 @@ func TestTableNested(t *testing.T) {
 									if mx == 1 {
 										xa = mkVar("ctx_xa")
 										dims = append(dims, dim{"ctx_xa", lc})
+									} else if mx == 2 {
+										xa = mkIgnore()
+										dims = append(dims, dim{"ignore:context.x.a", lc})
 									}
 									if md == 1 {
 										da = mkVar("ctx_da")
